@@ -7,7 +7,8 @@ import (
 // c04Extra: rules added after the fourth independent seeding round.
 func c04Extra(r *core.Run) {
 	p := r.P
-	defer c04r9(r) // round 9: the unauthorized callback cannot commit a status other than 401 (c04_r9.go)
+	defer c04r10(r) // round 10: the signature option marks every strict group as enabled (c04_r10.go)
+	defer c04r9(r)  // round 9: the unauthorized callback cannot commit a status other than 401 (c04_r9.go)
 	r.Check("D2/K1/auth-appended-on-every-path", "every route is bound with the authentication gates: in the function of package api that hands a route to Router.Handle, every path to that call passes engine.appendAuthHandler (whatever chain the server was built with)", func(o *core.O) {
 		isAppend := core.CallMethod("api.engine", "appendAuthHandler")
 		isHandle := core.CallMethod("httpx.Router", "Handle")
